@@ -78,6 +78,83 @@ def _const_offset(k):
     return None
 
 
+def _mentions(t, v):
+    """does term t contain the constant v"""
+    seen = set()
+    stack = [t]
+    while stack:
+        e = stack.pop()
+        if e.get_id() in seen:
+            continue
+        seen.add(e.get_id())
+        if e.eq(v):
+            return True
+        stack.extend(e.children())
+    return False
+
+
+def _linear_instances(et, es, depth=0):
+    out = []
+    sdt = sigma.sigma_def_of(et)
+    sds = [sigma.sigma_def_of(e) for e in es]
+    if sdt is None or any(d is None for d in sds) or not es:
+        return out
+    lo, hi = et.arg(0), et.arg(1)
+    same = z3.And(*[z3.And(e.arg(0) == lo, e.arg(1) == hi) for e in es])
+    x = z3.Int("lin!%d!%s" % (et.get_id(), "!".join(str(e.get_id()) for e in es)))
+    bt = sdt.body_at(x, [et.arg(i) for i in range(2, et.num_args())])
+    bs = [d.body_at(x, [e.arg(i) for i in range(2, e.num_args())]) for d, e in zip(sds, es)]
+
+    def R(t):
+        return z3.ToReal(t) if z3.is_int(t) else t
+    mixed = any(z3.is_real(t) for t in [et] + list(es))
+    cast = R if mixed else (lambda t: t)
+    tot_b = cast(bs[0])
+    tot_e = cast(es[0])
+    for b, e in zip(bs[1:], es[1:]):
+        tot_b = tot_b + cast(b)
+        tot_e = tot_e + cast(e)
+    out.append(z3.Implies(z3.And(same, z3.Implies(z3.And(lo <= x, x < hi), cast(bt) == tot_b)), cast(et) == tot_e))
+    if depth < 3 and sigma.sigma_def_of(bt) is not None and all(sigma.sigma_def_of(b) is not None for b in bs):
+        out.extend(_linear_instances(bt, bs, depth + 1))
+    return out
+
+
+def _reindex_selection(sd, e):
+    from . import sv as _sv
+    lo, hi = e.arg(0), e.arg(1)
+    args = [e.arg(i) for i in range(2, e.num_args())]
+    x = z3.Int(f"reidx!{e.get_id()}")
+    b = sd.body_at(x, args)
+    # applications sel(x) in the body
+    found = {}
+    seen = set()
+    stack = [b]
+    while stack:
+        t = stack.pop()
+        if t.get_id() in seen:
+            continue
+        seen.add(t.get_id())
+        if z3.is_app(t) and t.decl().kind() == z3.Z3_OP_UNINTERPRETED and t.decl().name() in sigma.SELECTIONS \
+                and t.num_args() == 1 and t.arg(0).eq(x):
+            found[t.decl().name()] = t
+            continue
+        stack.extend(t.children())
+    if len(found) != 1:
+        return None
+    name, app = next(iter(found.items()))
+    f, n, mask, cnt = sigma.SELECTIONS[name]
+    if not (z3.is_int_value(lo) and lo.as_long() == 0 and z3.simplify(hi - _sv.znum(cnt)).eq(z3.IntVal(0))):
+        return None
+    j = z3.Int(f"reidxj!{e.get_id()}")
+    b2 = z3.substitute(b, (app, j))
+    if _mentions(b2, x):
+        return None
+    zero = 0 if z3.is_int(e) else _sv.to_frac(0.0)
+    total = sigma.Sum(0, n, lambda t: _sv.ite(mask(t), _sv.wrap(z3.substitute(b2, (j, _sv.znum(t)))), zero))
+    return e == _sv.znum(total) if z3.is_int(e) == z3.is_int(_sv.znum(total)) else e == z3.ToReal(_sv.znum(total))
+
+
 def _key(e):
     return e.get_id()
 
@@ -213,6 +290,10 @@ def instances(formulas, opts=None):
         args = [e.arg(i) for i in range(2, e.num_args())]
         zero = z3.IntVal(0) if z3.is_int(e) else RV(0)
         out.append(z3.Implies(hi <= lo, e == zero))
+        if opts.get("const_sum", False) and not _mentions(sd.body, sd.var):
+            # (opt-in) constant summand: sum_{t=lo}^{hi-1} c = c (hi - lo)
+            cnt = (hi - lo) if z3.is_int(e) else z3.ToReal(hi - lo)
+            out.append(z3.Implies(hi >= lo, e == sd.body_at(lo, args) * cnt))
         only = opts.get("unfold_only")      # optional: names of the Σ-functions whose applications are unfolded
         if opts.get("unfold", True) and (only is None or sd.name in only):
             last = sd.fn(lo, z3.simplify(hi - 1), *args)
@@ -220,6 +301,17 @@ def instances(formulas, opts=None):
         if opts.get("unfold_first", False):
             first = sd.fn(z3.simplify(lo + 1), hi, *args)
             out.append(z3.Implies(hi > lo, e == sd.body_at(lo, args) + first))
+    # re-indexing along the enumeration of a boolean-mask selection (assumed bijection sel: [0,count) -> {j<n: mask_j}):
+    #   sum_{p=0}^{count-1} g(sel(p)) = sum_{j=0}^{n-1} [mask_j] g(j)      (g must not depend on p otherwise)
+    if sigma.SELECTIONS:
+        for sd, e in sig_apps:
+            inst = _reindex_selection(sd, e)
+            if inst is not None:
+                out.append(inst)
+    # linearity for designated applications (contracts pass opts["sigma_linear"] = [(total, [parts...])]):
+    #   (forall x in range: body_total(x) = sum_c body_c(x))  ->  total = sum_c part_c      (Skolemised like extensionality)
+    for et, es in (opts.get("sigma_linear") or []):
+        out.extend(_linear_instances(et, list(es)))
     groups = opts.get("_ext_groups")
     if opts.get("ext", True) and groups is not None:
         # local mode (opt-in, `ext_local`): pair two Σ-applications only when they occur in the same formula of the group
@@ -241,7 +333,8 @@ def instances(formulas, opts=None):
     if True:
         done = opts.get("_ext_done")
         for (sd1, e1), (sd2, e2) in pairs:
-            if e1.sort() != e2.sort():
+            mixed = e1.sort() != e2.sort()
+            if mixed and not (z3.is_arith(e1) and z3.is_arith(e2)):
                 continue
             if done is not None:
                 # one extensionality instance (one Skolem index) per pair of applications and saturation run
@@ -258,6 +351,10 @@ def instances(formulas, opts=None):
             a1 = [e1.arg(i) for i in range(2, e1.num_args())]
             a2 = [e2.arg(i) for i in range(2, e2.num_args())]
             b1, b2 = sd1.body_at(x, a1), sd2.body_at(x, a2)
+            if mixed:
+                # an integer-valued and a real-valued sum: the embedding Z -> R commutes with finite sums
+                b1, b2 = (z3.ToReal(b1) if z3.is_int(b1) else b1), (z3.ToReal(b2) if z3.is_int(b2) else b2)
+                e1, e2 = (z3.ToReal(e1) if z3.is_int(e1) else e1), (z3.ToReal(e2) if z3.is_int(e2) else e2)
             out.append(z3.Implies(z3.And(lo1 == lo2, hi1 == hi2,
                                          z3.Implies(z3.And(lo1 <= x, x < hi1), b1 == b2)), e1 == e2))
             # pointwise lemmas supplied by a contract (each proved as its own obligation at an arbitrary index):
